@@ -242,7 +242,13 @@ class Headers:
                 bail = True
                 chunk = chunk[:(height-e.height)*self.header_size]
             if chunk:
+                replaced = self._read(height, len(chunk) // self.header_size)
                 added += self._write(height, chunk)
+                if replaced != chunk[:len(replaced)]:
+                    # a stored header was replaced (fork at a lower height): everything still stored
+                    # above the end of this batch belongs to the abandoned branch and no longer links
+                    self.io.truncate()
+                    self._size = self.io.tell() // self.header_size
             if bail:
                 break
         return added
